@@ -199,18 +199,24 @@ impl PathWorker for ScanWithConfig {
     let items = filter_file_rule(path, &self.configs, &self.trace)?;
     let mut error_count = 0usize;
     let mut ret = vec![];
-    for grep in items {
+    let interactive = self.arg.output.needs_interactive();
+    let combineds: Vec<_> = items
+      .iter()
+      .map(|grep| {
+        let rules = self.configs.get_rule_from_lang(path, *grep.lang());
+        let mut combined = CombinedScan::new(rules);
+        combined.set_unused_suppression_rule(&self.unused_suppression_rule);
+        combined
+      })
+      .collect();
+    // fixes of all documents of one file (host + injected languages) are applied in one write
+    let mut all_diffs = vec![];
+    for (grep, combined) in items.iter().zip(&combineds) {
       let file_content = grep.source().to_string();
-      let rules = self.configs.get_rule_from_lang(path, *grep.lang());
-      let mut combined = CombinedScan::new(rules);
-      combined.set_unused_suppression_rule(&self.unused_suppression_rule);
-      let interactive = self.arg.output.needs_interactive();
       // exclude_fix rule because we already have diff inspection before
-      let scanned = combined.scan(&grep, /* separate_fix*/ interactive);
+      let scanned = combined.scan(grep, /* separate_fix*/ interactive);
       if interactive {
-        let diffs = scanned.diffs;
-        let processed = match_rule_diff_on_file(path, diffs, processor)?;
-        ret.push(processed);
+        all_diffs.extend(scanned.diffs);
       }
       for (rule, matches) in scanned.matches {
         if matches!(rule.severity, Severity::Error) {
@@ -219,6 +225,11 @@ impl PathWorker for ScanWithConfig {
         let processed = match_rule_on_file(path, matches, rule, &file_content, processor)?;
         ret.push(processed);
       }
+    }
+    if interactive && !items.is_empty() {
+      all_diffs.sort_by_key(|(_, nm)| nm.range().start);
+      let processed = match_rule_diff_on_file(path, all_diffs, processor)?;
+      ret.insert(0, processed);
     }
     self.error_count.fetch_add(error_count, Ordering::AcqRel);
     Ok(ret)
